@@ -110,6 +110,40 @@ async def sk_delete_folder_with_stray_files_recreate(hp, w, rnd, ctx):
     await w.observe()
 
 
+async def sk_folders_found_at_startup(hp, w, rnd, ctx):
+    """MH folders made by other tools while the server was down are found
+    together when it starts.  One of them is deleted and another renamed on to
+    its name: the name now denotes another incarnation, so its UIDVALIDITY is
+    not the one it had."""
+    import mailbox
+
+    from ..history import MBox
+
+    a = w.session()
+    await w.op_append(a, "INBOX")
+    await w.observe()
+    for nm in ("exta", "extb", "extc", "extd"):
+        mailbox.MH(str(w.rig.maildir / nm), create=True)
+        w.boxes[nm] = MBox(nm)
+        w.boxes[nm].vv = None
+        w.deliver(nm, 2, unseen=[True, False])
+    w.stats["folders_made_while_down"] += 4
+    await w.restart()
+    a = w.session()
+    await w.observe()
+    await w.op_select(a, "exta")
+    await w.op_fetch(a, [1, 2], "UID FLAGS")
+    await w.op_select(a, "INBOX")
+    await w.op_delete(a, "exta")
+    await w.op_rename(a, "extb", "exta")
+    await w.observe()
+    await w.op_append(a, "exta")
+    await w.op_delete(a, "extc")
+    await w.op_create(a, "extc")
+    await w.op_append(a, "extc")
+    await w.observe()
+
+
 async def sk_kill_between_commands(hp, w, rnd, ctx):
     """The user process is killed (not shut down) at quiet moments -- after a
     DELETE that left a placeholder, after a delete-and-create, after a RENAME,
@@ -192,7 +226,7 @@ async def sk_rename_then_refill(hp, w, rnd, ctx):
 class C02(HistProp):
     prop = PROP
     names = ["INBOX", "other", "arch"]
-    skeletons = [sk_expunge_last_then_append, sk_delete_recreate, sk_expunge_all_restart_deliver, sk_rename_then_refill, sk_delete_restart_recreate, sk_delete_folder_with_stray_files_recreate, sk_kill_between_commands]
+    skeletons = [sk_expunge_last_then_append, sk_delete_recreate, sk_expunge_all_restart_deliver, sk_rename_then_refill, sk_delete_restart_recreate, sk_delete_folder_with_stray_files_recreate, sk_kill_between_commands, sk_folders_found_at_startup]
     weights = {"append": 12, "store_del": 9, "expunge": 8, "uid_expunge": 4, "copy": 6, "move": 5, "deliver": 6, "restart": 2, "create": 2, "delete": 2,
                "rename": 1, "rename_inbox": 1, "advance": 4, "idle": 1, "fetch_body": 1, "store": 2}
     opts = {"create_names": ["other", "arch", "arch/sub", "tmp"], "rename_targets": ["moved", "arch/moved", "deep/er", "saved"]}
